@@ -1,1 +1,113 @@
-def main : IO Unit := pure ()
+import NfcVerif.Model.NfcDep
+open NfcVerif NfcVerif.NfcDep
+
+def optNat (s : String) : Option (Option Nat) :=
+  if s = "-" then some none else s.toNat?.map some
+
+def showOpt : Option Nat → String
+  | none => "-"
+  | some n => toString n
+
+def parseScript (s : String) : Option (List Fault) :=
+  if s = "-" then some [] else
+  s.toList.mapM fun ch =>
+    if ch = 'd' then some Fault.d else if ch = 'l' then some .l
+    else if ch = 'c' then some .c else if ch = 'x' then some .x else none
+
+def showFault : Fault → String
+  | .d => "d" | .l => "l" | .c => "c" | .x => "x"
+
+def parseList (s : String) : Option (List Bytes) :=
+  if s = "-" then some [] else (s.splitOn ",").mapM fun h => if h = "e" then some [] else parseHex h
+
+def showList (l : List Bytes) : String :=
+  if l.isEmpty then "-" else ",".intercalate (l.map fun b => if b.isEmpty then "e" else toHex b)
+
+def parseVariant (s : String) : Option Variant :=
+  match s.toList with
+  | [a, b, c, d] => some ⟨a = '1', b = '1', c = '1', d = '1'⟩
+  | _ => none
+
+def showPdu : Pdu → String
+  | .dep fmt pni did nad data => s!"dep {fmt} {pni} {showOpt did} {showOpt nad} {toHex data}"
+  | .dsl did => s!"dsl {showOpt did}"
+  | .rls did => s!"rls {showOpt did}"
+  | .atr body => s!"atr {toHex body}"
+  | .psl args => s!"psl {toHex args}"
+
+def showWire (b106 : Bool) (w : Wire) : String :=
+  (if w.req then ">" else "<") ++
+  (match encodeFrame b106 w.req w.pdu with
+   | .ok f => toHex f
+   | .error e => "!" ++ e.name) ++ ":" ++ showFault w.fault
+
+def showWires (b106 : Bool) (ws : List Wire) : String :=
+  if ws.isEmpty then "-" else ",".intercalate (ws.map (showWire b106))
+
+def showErr : Option Exc → String
+  | none => "ok"
+  | some e => "exc " ++ e.name
+
+def showT (t : TState) : String :=
+  showList t.got ++ " " ++
+  (match t.status with
+   | .running => (match t.loc with | .listen => "inactive" | _ => "running")
+   | .ended => "ended"
+   | .retNone => "none"
+   | .raised e => "exc " ++ e.name)
+
+def mkCfg (b106 idid inad tdid imiu tmiu v : String) : Option Cfg := do
+  let idid ← optNat idid
+  let inad ← optNat inad
+  let tdid ← optNat tdid
+  let imiu ← imiu.toNat?
+  let tmiu ← tmiu.toNat?
+  let v ← parseVariant v
+  pure { b106 := b106 = "1", idid := idid, inad := inad, tdid := tdid, imiu := imiu, tmiu := tmiu, v := v }
+
+def parseResp (b106 : Bool) (s : String) : Option (List (Option Pdu)) :=
+  if s = "-" then some [] else
+  (s.splitOn ",").mapM fun h =>
+    if h = "none" then some none else
+    match parseHex h with
+    | none => none
+    | some f => match decodeFrame b106 false f with
+      | .ok p => some (some p)
+      | .error _ => none
+
+def handle (line : String) : String :=
+  match line.splitOn " " with
+  | ["run", b106, idid, inad, tdid, imiu, tmiu, v, fuel, script, rel, pi, pt] =>
+    match mkCfg b106 idid inad tdid imiu tmiu v, fuel.toNat?, parseScript script, rel.toNat?, parseList pi, parseList pt with
+    | some c, some fuel, some script, some rel, some pi, some pt =>
+      let tr := run c fuel script rel pi pt
+      s!"W {showWires c.b106 tr.wire} | I {showList tr.gotI} {showErr tr.errI} | D {showErr tr.errD} | T {showT tr.t}"
+    | _, _, _, _, _, _ => "bad-op"
+  | ["scr", b106, idid, inad, imiu, v, fuel, script, resp, p] =>
+    match mkCfg b106 idid inad "-" imiu "0" v, fuel.toNat?, parseScript script, parseResp (b106 = "1") resp, parseHex p with
+    | some c, some fuel, some script, some resp, some p =>
+      let r := runScripted c fuel script resp p
+      s!"W {showWires c.b106 r.1} | I {showPy toHex r.2}"
+    | _, _, _, _, _ => "bad-op"
+  | ["act", lri, lrt, idid, inad, f20] =>
+    match lri.toNat?, lrt.toNat?, optNat idid, optNat inad with
+    | some lri, some lrt, some idid, some inad =>
+      let tdid := tDidOf idid
+      s!"{iMiu lrt idid inad} {tMiu (f20 = "1") lri tdid} {showOpt tdid}"
+    | _, _, _, _ => "bad-op"
+  | ["dec", b106, req, h] =>
+    match parseHex h with
+    | some f => showPy showPdu (decodeFrame (b106 = "1") (req = "1") f)
+    | none => "bad-op"
+  | ["encdep", b106, req, fmt, pni, did, nad, h] =>
+    match fmt.toNat?, pni.toNat?, optNat did, optNat nad, parseHex h with
+    | some fmt, some pni, some did, some nad, some d =>
+      showPy toHex (encodeFrame (b106 = "1") (req = "1") (.dep fmt pni did nad d))
+    | _, _, _, _, _ => "bad-op"
+  | ["encdsl", b106, req, rls, did] =>
+    match optNat did with
+    | some did => showPy toHex (encodeFrame (b106 = "1") (req = "1") (if rls = "1" then .rls did else .dsl did))
+    | none => "bad-op"
+  | _ => "bad-op"
+
+def main : IO Unit := runDriver handle
